@@ -11,7 +11,13 @@ use crate::kernel::Predicate;
 
 impl Predicate<Transaction> for TxnFilterTxnTSBegin {
     fn eval(&self, txn: &Transaction) -> bool {
-        match self.begin.cmp(&txn.header.timestamp.timestamp()) {
+        // instants are compared by value (jiff 0.2.5 can compare a deserialized timestamp near
+        // the epoch wrongly, see parser::parts::timestamp::parse_timestamp)
+        match self
+            .begin
+            .as_nanosecond()
+            .cmp(&txn.header.timestamp.timestamp().as_nanosecond())
+        {
             Ordering::Less => true,
             Ordering::Equal => true,
             Ordering::Greater => false,
